@@ -98,23 +98,24 @@ theorem reliable_at_most_once (ops : List (Env × C01.Op)) (c : Conn) (h : RecvI
 
 /-! ## nothing is delivered that was not sent -/
 
-/-- the bunches handed to `utcp_send_bunch` in a history (accepted or refused), newest first, on top of `sent` -/
-def sentOf : List (Env × C18.Op) → List Bunch → List Bunch
-  | [], sent => sent
-  | (_, .send b) :: rest, sent => sentOf rest (b :: sent)
-  | _ :: rest, sent => sentOf rest sent
+/-- the bunches `utcp_send_bunch` accepted in a history, newest first, on top of `sent` — each with the channel sequence number the
+sender gave it (`Conn.tagged`; a refused bunch is not added) -/
+def sentOf : Conn → List (Env × C18.Op) → List Bunch → List Bunch
+  | _, [], sent => sent
+  | c, (e, .send b) :: rest, sent => sentOf (C18.apply e c (.send b)) rest (c.sentAfter b sent)
+  | c, (e, op) :: rest, sent => sentOf (C18.apply e c op) rest sent
 
-theorem sentOf_mono (ops : List (Env × C18.Op)) : ∀ sent x, x ∈ sent → x ∈ sentOf ops sent := by
+theorem sentOf_mono (ops : List (Env × C18.Op)) : ∀ c sent x, x ∈ sent → x ∈ sentOf c ops sent := by
   induction ops with
-  | nil => intro sent x hx; exact hx
+  | nil => intro c sent x hx; exact hx
   | cons p rest ih =>
-    intro sent x hx
+    intro c sent x hx
     obtain ⟨e, op⟩ := p
     cases op with
-    | send b => exact ih _ x (List.mem_cons_of_mem _ hx)
-    | flush => exact ih _ x hx
-    | recv bits => exact ih _ x hx
-    | update => exact ih _ x hx
+    | send b => exact ih _ _ x (sentAfter_mono c b sent x hx)
+    | flush => exact ih _ _ x hx
+    | recv bits => exact ih _ _ x hx
+    | update => exact ih _ _ x hx
 
 theorem adds_mono_sent {mb mg : Nat} {sent sent' : List Bunch} {c c' : Conn} (h : Adds (EP mb mg sent) c c') (hs : ∀ b ∈ sent, b ∈ sent') : Adds (EP mb mg sent') c c' :=
   h.mono (fun _ hev => hev.mono hs)
@@ -125,7 +126,7 @@ stays a well-formed header encoding, and every datagram emitted is `outgoing hea
 terminators`, with respect to the bunches handed to `utcp_send_bunch` so far -/
 theorem sender_run (mb mg : Nat) (ops : List (Env × C18.Op)) : ∀ (c : Conn) (sent : List Bunch), EInv sent c →
     (∀ p ∈ ops, p.1.magicBits = mb ∧ p.1.magic = mg) →
-    EInv (sentOf ops sent) (C18.run c ops) ∧ Adds (EP mb mg (sentOf ops sent)) c (C18.run c ops) := by
+    EInv (sentOf c ops sent) (C18.run c ops) ∧ Adds (EP mb mg (sentOf c ops sent)) c (C18.run c ops) := by
   induction ops with
   | nil => intro c sent h _; exact ⟨h, Adds.refl _ _⟩
   | cons p rest ih =>
@@ -136,26 +137,26 @@ theorem sender_run (mb mg : Nat) (ops : List (Env × C18.Op)) : ∀ (c : Conn) (
     cases op with
     | send b =>
       obtain ⟨s1, s2⟩ := sendBunch_einv sent e he c b h
-      obtain ⟨r1, r2⟩ := ih _ (b :: sent) s1 hrest
-      exact ⟨r1, (adds_mono_sent s2 (sentOf_mono rest (b :: sent))).trans r2⟩
+      obtain ⟨r1, r2⟩ := ih _ (c.sentAfter b sent) s1 hrest
+      exact ⟨r1, (adds_mono_sent s2 (sentOf_mono rest _ _)).trans r2⟩
     | flush =>
       obtain ⟨s1, s2⟩ := flush_einv sent e he c h
       obtain ⟨r1, r2⟩ := ih _ sent s1 hrest
-      exact ⟨r1, (adds_mono_sent s2 (sentOf_mono rest sent)).trans r2⟩
+      exact ⟨r1, (adds_mono_sent s2 (sentOf_mono rest _ sent)).trans r2⟩
     | recv bits =>
       obtain ⟨s1, s2⟩ := receivedPacket_einv sent e he c bits h
       obtain ⟨r1, r2⟩ := ih _ sent s1 hrest
-      exact ⟨r1, (adds_mono_sent s2 (sentOf_mono rest sent)).trans r2⟩
+      exact ⟨r1, (adds_mono_sent s2 (sentOf_mono rest _ sent)).trans r2⟩
     | update =>
       obtain ⟨s1, s2⟩ := update_einv sent e he c h
       obtain ⟨r1, r2⟩ := ih _ sent s1 hrest
-      exact ⟨r1, (adds_mono_sent s2 (sentOf_mono rest sent)).trans r2⟩
+      exact ⟨r1, (adds_mono_sent s2 (sentOf_mono rest _ sent)).trans r2⟩
 
 /-- … in particular, for a freshly initialised connection: every datagram in the log has that form -/
 theorem sender_emits_only_sent (mb mg : Nat) (ops : List (Env × C18.Op)) (hall : ∀ p ∈ ops, p.1.magicBits = mb ∧ p.1.magic = mg) (i o : Int) (d : List UInt8)
     (hd : Event.out d ∈ (C18.run (({} : Conn).seqInit i o) ops).log) :
     ∃ (e : Env) (s cl : Nat) (hh : NotifHeader) (body : Bits), (e.magicBits = mb ∧ e.magic = mg) ∧ C11.WFHeader hh ∧
-      d = bitsToBytes (outgoingHeader e s cl false ++ encodeNotifHeader hh ++ body ++ [true, true]) ∧ GoodBody (sentOf ops []) body := by
+      d = bitsToBytes (outgoingHeader e s cl false ++ encodeNotifHeader hh ++ body ++ [true, true]) ∧ GoodBody (sentOf (({} : Conn).seqInit i o) ops []) body := by
   obtain ⟨_, new, hlog, hnew⟩ := sender_run mb mg ops (({} : Conn).seqInit i o) [] (fresh_einv _ rfl rfl (seqInit_hinv _ _ _ rfl)) hall
   rw [hlog] at hd
   rcases List.mem_append.mp hd with hd | hd
@@ -199,7 +200,7 @@ every bunch of every callback made during the history looks like a bunch in `sen
 and payload -/
 theorem delivered_were_sent (sent : List Bunch) (ops : List (Env × C01.Op)) (i o : Int) (hoff : Offered sent ops)
     (g : List Bunch) (hg : Event.recv g ∈ (C01.run (({} : Conn).seqInit i o) ops).log) :
-    ∀ q ∈ g, ∃ b ∈ sent, seen q = seen b := by
+    ∀ q ∈ g, ∃ b ∈ sent, seen q = seen b ∧ (q.bReliable = true → q.chSeq % 1024 = b.chSeq % 1024) := by
   have h0 : OInv (SentQ sent) (({} : Conn).seqInit i o) := by
     intro ch x hx
     have hn : (({} : Conn).seqInit i o).getChan ch = none := rfl
@@ -264,49 +265,53 @@ def FromLink (S : Conn) : List (Env × C01.Op) → Prop
   | (e, .recv bits) :: rest => (∃ d, Event.out d ∈ S.log ∧ wireBits e d = some bits) ∧ FromLink S rest
   | _ :: rest => FromLink S rest
 
+/-- the link hypothesis in the form the receiver-side theorems use: every packet the receiver is given has a good body with respect to the
+bunches the sender accepted (numbered as the sender numbered them) -/
+theorem link_offered (mb mg : Nat) (hfit : mg < 2 ^ mb) (opsS : List (Env × C18.Op)) (hS : ∀ p ∈ opsS, p.1.magicBits = mb ∧ p.1.magic = mg) (iS oS : Int) :
+    ∀ (ops : List (Env × C01.Op)), (∀ p ∈ ops, p.1.magicBits = mb ∧ p.1.magic = mg) →
+      FromLink (C18.run (({} : Conn).seqInit iS oS) opsS) ops → Offered (sentOf (({} : Conn).seqInit iS oS) opsS []) ops := by
+  intro ops
+  induction ops with
+  | nil => intro _ _; trivial
+  | cons p rest ih =>
+    intro hall hl
+    obtain ⟨e, op⟩ := p
+    have he := hall (e, op) List.mem_cons_self
+    have hrest : ∀ q ∈ rest, q.1.magicBits = mb ∧ q.1.magic = mg := fun q hq => hall q (List.mem_cons_of_mem _ hq)
+    cases op with
+    | send b => exact ih hrest hl
+    | flush => exact ih hrest hl
+    | recv bits =>
+      simp only [FromLink] at hl
+      obtain ⟨⟨d, hd, hw⟩, hl'⟩ := hl
+      refine ⟨?_, ih hrest hl'⟩
+      obtain ⟨e', s, cl, hh, body, he', wf, hform, hgood⟩ := sender_emits_only_sent mb mg opsS hS iS oS d hd
+      -- the receiver's environment has the sender's magic configuration, so its parse of `d` yields exactly header and body
+      have henv : outgoingHeader e' s cl false = outgoingHeader e s cl false := by
+        unfold outgoingHeader; rw [he'.1, he'.2, he.1, he.2]
+      rw [henv] at hform
+      obtain ⟨w1, w2, w3⟩ := wire_to_body e s cl hh wf body (by rw [he.1, he.2]; exact hfit)
+      have hbits : bits = (encodeNotifHeader hh ++ body ++ [true]).dropLast := by
+        unfold wireBits at hw
+        rw [hform, w1] at hw
+        simp only [w2] at hw
+        exact (Option.some.inj hw).symm
+      intro hd' body' hdec
+      rw [hbits, w3] at hdec
+      cases hdec
+      exact hgood
+
 /-- **end to end.**  `S` is any sender state reached from `utcp_sequence_init` by any history; the receiver is fed, in any order and with
 any duplication or loss, only datagrams that `S` emitted (both ends under the magic-header configuration `(mb, mg)`, which fits its
 width), interleaved with its own sends and flushes.  Then every bunch of every callback the receiver makes looks — flags, channel, close
-reason, name index, payload — like a bunch that the sender's application handed to `utcp_send_bunch`. -/
+reason, name index, payload — like a bunch that the sender's `utcp_send_bunch` accepted, and, if reliable, carries that bunch's channel
+sequence number modulo 1024 (the receiver's number is the absolute value it reconstructed; `Props/C01_Link.lean` shows when the two are
+equal). -/
 theorem link_integrity (mb mg : Nat) (hfit : mg < 2 ^ mb) (opsS : List (Env × C18.Op)) (hS : ∀ p ∈ opsS, p.1.magicBits = mb ∧ p.1.magic = mg) (iS oS : Int)
     (opsR : List (Env × C01.Op)) (hR : ∀ p ∈ opsR, p.1.magicBits = mb ∧ p.1.magic = mg) (iR oR : Int)
     (hlink : FromLink (C18.run (({} : Conn).seqInit iS oS) opsS) opsR)
     (g : List Bunch) (hg : Event.recv g ∈ (C01.run (({} : Conn).seqInit iR oR) opsR).log) :
-    ∀ q ∈ g, ∃ b ∈ sentOf opsS [], seen q = seen b := by
-  refine delivered_were_sent (sentOf opsS []) opsR iR oR ?_ g hg
-  -- every packet offered has a good body
-  have key : ∀ (ops : List (Env × C01.Op)), (∀ p ∈ ops, p.1.magicBits = mb ∧ p.1.magic = mg) →
-      FromLink (C18.run (({} : Conn).seqInit iS oS) opsS) ops → Offered (sentOf opsS []) ops := by
-    intro ops
-    induction ops with
-    | nil => intro _ _; trivial
-    | cons p rest ih =>
-      intro hall hl
-      obtain ⟨e, op⟩ := p
-      have he := hall (e, op) List.mem_cons_self
-      have hrest : ∀ q ∈ rest, q.1.magicBits = mb ∧ q.1.magic = mg := fun q hq => hall q (List.mem_cons_of_mem _ hq)
-      cases op with
-      | send b => exact ih hrest hl
-      | flush => exact ih hrest hl
-      | recv bits =>
-        simp only [FromLink] at hl
-        obtain ⟨⟨d, hd, hw⟩, hl'⟩ := hl
-        refine ⟨?_, ih hrest hl'⟩
-        obtain ⟨e', s, cl, hh, body, he', wf, hform, hgood⟩ := sender_emits_only_sent mb mg opsS hS iS oS d hd
-        -- the receiver's environment has the sender's magic configuration, so its parse of `d` yields exactly header and body
-        have henv : outgoingHeader e' s cl false = outgoingHeader e s cl false := by
-          unfold outgoingHeader; rw [he'.1, he'.2, he.1, he.2]
-        rw [henv] at hform
-        obtain ⟨w1, w2, w3⟩ := wire_to_body e s cl hh wf body (by rw [he.1, he.2]; exact hfit)
-        have hbits : bits = (encodeNotifHeader hh ++ body ++ [true]).dropLast := by
-          unfold wireBits at hw
-          rw [hform, w1] at hw
-          simp only [w2] at hw
-          exact (Option.some.inj hw).symm
-        intro hd' body' hdec
-        rw [hbits, w3] at hdec
-        cases hdec
-        exact hgood
-  exact key opsR hR hlink
+    ∀ q ∈ g, ∃ b ∈ sentOf (({} : Conn).seqInit iS oS) opsS [], seen q = seen b ∧ (q.bReliable = true → q.chSeq % 1024 = b.chSeq % 1024) :=
+  delivered_were_sent (sentOf (({} : Conn).seqInit iS oS) opsS []) opsR iR oR (link_offered mb mg hfit opsS hS iS oS opsR hR hlink) g hg
 
 end Utcp.Props.C04
